@@ -191,9 +191,12 @@ def _write_evidence(path, prop, tier, seed, ctx, rule_mod, t0, failed=(), new=()
     distinct = len({o.key for o in obs})
     decided = getattr(rule_mod, 'DECIDES', '')
     not_decided = getattr(rule_mod, 'NOT_DECIDED', '')
-    expl = ('Static analysis of the source text (Python ast -> module IR by abstract interpretation of '
-            'elaborate(); nothing is imported, simulated or solved). Decided structural clauses: %s '
-            'Not decided: %s' % (decided, not_decided))
+    expl = ('Static analysis of the source text: Python ast -> module IR (guarded assignments, FSM graphs, wiring) by '
+            'abstract interpretation of elaborate(); nothing of /repo is imported or executed and no solver is used. Rules '
+            'inspect guards, drivers, FSM structure and priority, folded constants and widths; where a rule says so it '
+            'evaluates the extracted guard/assignment expressions over all valuations of their (finitely many) boolean '
+            'atoms or small control registers, i.e. a finite abstract interpretation of the extracted IR. Decided structural '
+            'clauses: %s Not decided: %s' % (decided, not_decided))
     if error:
         expl = 'ANALYSIS-ERROR, no verdict: ' + error + ' || ' + expl
     ev = {
